@@ -26,6 +26,10 @@ var (
 		"mc5":     netip.MustParseAddr("ff05::2"),
 		"map4":    netip.MustParseAddr("::ffff:192.168.0.77"),
 		"ula1":    netip.MustParseAddr("fd00:1234::1"),
+		// link-local unicast (fe80::/10) outside the usual fe80::/64 + interface id shape, and with a zone
+		"lx1": netip.MustParseAddr("fe80:0:0:1::2:2"),
+		"lx2": netip.MustParseAddr("febf::3:3"),
+		"lz1": netip.MustParseAddr("fe80::101").WithZone("eth0"), // l1 (fe80::101) as an API argument carrying a zone
 	}
 )
 
